@@ -23,6 +23,7 @@ import (
 	"github.com/go-kid/ioc/container/factory"
 	"github.com/go-kid/ioc/container/processors"
 	"github.com/go-kid/ioc/container/support"
+	"github.com/go-kid/ioc/definition"
 	"github.com/go-kid/ioc/syslog"
 )
 
@@ -96,9 +97,10 @@ func (x *xproc) Init() error {
 	return nil
 }
 
-type xprocLazy struct{ xproc }
-
-func (*xprocLazy) LazyInit() {}
+type xprocLazy struct { // lazy through the library's embeddable LazyInitComponent
+	xproc
+	definition.LazyInitComponent
+}
 
 type Nd interface{ NodeID() int }
 
@@ -674,7 +676,7 @@ func runEngScenario(sc *EngScenario) []map[string]any {
 	}
 	for i, lazy := range sc.Procs {
 		if lazy {
-			ordered = append(ordered, &xprocLazy{xproc{e: e, p: i + 1}})
+			ordered = append(ordered, &xprocLazy{xproc: xproc{e: e, p: i + 1}})
 		} else {
 			ordered = append(ordered, &xproc{e: e, p: i + 1})
 		}
